@@ -107,7 +107,27 @@ func startWorker() (*worker, error) {
 	if err := cmd.Start(); err != nil {
 		return nil, err
 	}
-	return &worker{cmd, in, bufio.NewReaderSize(out, 1<<20), tb}, nil
+	w := &worker{cmd, in, bufio.NewReaderSize(out, 1<<20), tb}
+	// handshake: process start-up (slow on a loaded machine) must not count against a case's limit
+	ready := make(chan error, 1)
+	go func() {
+		line, err := w.out.ReadString('\n')
+		if err == nil && strings.TrimSpace(line) != "READY" {
+			err = fmt.Errorf("unexpected worker greeting %q", line)
+		}
+		ready <- err
+	}()
+	select {
+	case err := <-ready:
+		if err != nil {
+			w.kill()
+			return nil, err
+		}
+	case <-time.After(120 * time.Second):
+		w.kill()
+		return nil, fmt.Errorf("worker did not start within 120 s")
+	}
+	return w, nil
 }
 
 func (w *worker) kill() {
@@ -153,7 +173,7 @@ func (w *worker) runOne(c *Case, limit time.Duration) (Outcome, bool) {
 }
 
 // RunPool executes all cases on nWorkers child processes. A case that times
-// out or kills its worker is re-run once, alone on a fresh worker with twice
+// out or kills its worker is re-run once, alone on a fresh worker with three times
 // the limit, before its outcome is final (machine load must not be reported
 // as a hang).
 func RunPool(cases []*Case, nWorkers int, limit time.Duration) []Outcome {
@@ -212,7 +232,7 @@ func RunPool(cases []*Case, nWorkers int, limit time.Duration) []Outcome {
 		if err != nil {
 			continue
 		}
-		o, _ := w.runOne(cases[i], 2*limit)
+		o, _ := w.runOne(cases[i], 3*limit)
 		w.kill()
 		if o.Status == "ok" && len(o.Flagged) == 0 {
 			o.Stderr = "first attempt: " + outs[i].Status
@@ -240,6 +260,8 @@ func poolSize() int {
 func workerMain() {
 	rd := bufio.NewReaderSize(os.Stdin, 1<<20)
 	wr := bufio.NewWriter(os.Stdout)
+	wr.WriteString("READY\n")
+	wr.Flush()
 	// memory watchdog: a run-away allocation is reported as a death with a reason
 	go func() {
 		var ms runtime.MemStats
